@@ -181,6 +181,15 @@ class Extractor:
             e = self.walk(n["else"]) if "else" in n else []
             if not t and not e:
                 return c
+            # reader: `if let Some(v) = visitor.visit_x()? { <parse> } else { reader.skip(length)? }` — the visitor declined this item;
+            # the layout of the attribute is the parsed alternative (the skip consumes the same bytes unseen)
+            c0 = H.peel(n["cond"], refs=False)
+            if side == "r" and c0.get("k") == "letexpr" and any((H.callee_name(x) or "").startswith("visit") for x in H.walk(c0["init"]) if x.get("k") in ("call", "mcall")):
+                pure_skip = lambda items: len(items) == 1 and items[0][1].get("i") == "skip" and items[0][1].get("n") is None
+                if t and pure_skip(e):
+                    return c + t
+                if e and pure_skip(t):
+                    return c + e
             return c + [(None, {"i": "if", "cond": n["cond"], "then": t, "else": e, "tn": n["then"], "en": n.get("else"), "node": n})]
         if k == "match":
             s = self.walk(n["scrut"])
